@@ -361,6 +361,10 @@ ENGINE_RULE = ("(pattern AST from the generator, flags, haystack sampled from th
                "non-trivial = the search finds a match; distinct by (pattern, flags, haystack, start)")
 
 PLANS = {
+    "C07": dict(proofs=["Proofs.C07pre"], custom="c07",
+                runs=[("syntax", dict(quick=20000, thorough=600000), ["--focus", "C07"]), ("compiler", dict(quick=10000, thorough=300000))],
+                rule="all strings up to length 3 (thorough 4) over 25 syntax symbols x {-,u,v}; generated valid patterns, single-token mutations, random syntax-alphabet strings incl. surrogate code points; 30 adversarially large patterns (10^5..10^6 alternatives / nesting 255,256,257,10^5 / 65535,65536 groups and loops / 30-digit counts / 10^6-char literals / ...) each in a worker process; non-trivial = compiles",
+                technique="Lean 4 proofs about the parser / optimizer / emitter models with every Rust panic site explicit (case classes <= 4, pre-scan totality, …) + exact correspondence of the parser model (accept/reject and IR) + adversarial stream in worker processes"),
     "C15": dict(proofs=["Proofs.C15"], runs=[], custom="c15",
                 rule="one generated case file ((flags, pattern incl. single-token mutations of valid patterns, haystack, start)) replayed through find_from (optimized and no_opt, backtracking and PikeVM) by binaries built with default / index-positions / prohibit-unsafe / both / utf16 / alloc-only features; non-trivial = the default build finds a match",
                 technique="Lean 4 proof (any two build variants that refine the executor model agree wherever no error site is reachable - by the C06 safety theorem) + replay of one case file through six feature builds"),
@@ -386,17 +390,17 @@ PLANS = {
                                              ("compiler", dict(quick=20000, thorough=600000))],
                 rule=ENGINE_RULE,
                 technique="Lean 4 proof (prefilter transparency for any admissible scan; byte-scan and lead-byte lemmas) + executor tie + predicate-vs-Arbitrary differential"),
-    "C02": dict(proofs=[], runs=[("engine", dict(quick=30000, thorough=1500000), ["--focus", "C02"])],
-                rule=ENGINE_RULE, technique="(proofs pending)"),
+    "C02": dict(proofs=["Proofs.C02"], runs=[("engine", dict(quick=30000, thorough=1500000), ["--focus", "C02"])],
+                rule=ENGINE_RULE, technique="Lean 4 proofs about the executor models + executor tie (models run on the dumped bytecode, incl. step counts) + implementation differential"),
     "C03": dict(proofs=["Proofs.C03"], runs=[("engine", dict(quick=30000, thorough=1500000), ["--focus", "C03"]),
                                  ("compiler", dict(quick=30000, thorough=900000))],
                 rule=ENGINE_RULE + "; compiler tie: per generated pattern the real IR before/after optimization, start predicate and program vs the Lean models, and the IR semantics vs the real first match",
                 technique="Lean 4 proof: every optimizer pass and the whole pipeline preserve the IR semantics (all inputs) + exact correspondence of the optimizer / IR-semantics models with the code + opt-vs-no_opt differential"),
-    "C05": dict(proofs=[], runs=[("engine", dict(quick=30000, thorough=1500000), ["--focus", "C05"]),
+    "C05": dict(proofs=["Proofs.C05"], runs=[("engine", dict(quick=30000, thorough=1500000), ["--focus", "C05"]),
                                  ("c05scope", dict(quick=0, thorough=0))],
-                rule=ENGINE_RULE, technique="(proofs pending)"),
-    "C13": dict(proofs=[], runs=[("engine", dict(quick=30000, thorough=1500000), ["--focus", "C13"])],
-                rule=ENGINE_RULE, technique="(proofs pending)"),
+                rule=ENGINE_RULE, technique="Lean 4 proofs about the executor models + executor tie (models run on the dumped bytecode, incl. step counts) + implementation differential"),
+    "C13": dict(proofs=["Proofs.C13"], runs=[("engine", dict(quick=30000, thorough=1500000), ["--focus", "C13"])],
+                rule=ENGINE_RULE, technique="Lean 4 proofs about the executor models + executor tie (models run on the dumped bytecode, incl. step counts) + implementation differential"),
     "C19": dict(proofs=["Proofs.C19"], runs=[("c19", dict(quick=4000, thorough=100000))],
                 rule="(regex, multiset of (haystack,start) queries): sequential results vs 3 random orders on one thread vs 16 threads sharing &Regex and a clone, both executors; non-trivial = query has a match",
                 technique="Lean 4 proof (schedule-independence of per-thread executor state; generated type inventory has no interior mutability) + rustc Send/Sync assertion + thread stress"),
@@ -419,6 +423,43 @@ PLANS = {
                 rule="all strings up to length 2 (thorough 3) over 24 syntax/other characters + random longer ones, x 12 flag sets x 8 haystacks; non-trivial = contains a syntax character",
                 technique="Lean 4 proof over the escape model + exhaustive short-string differential against substring search"),
 }
+
+
+BIG_CASES = [
+    ("alt", 100000, "ok"), ("altgroups", 70000, "err"), ("nest", 255, "ok"), ("nest", 256, None), ("nest", 257, "err"), ("nest", 100000, "err"),
+    ("ncnest", 257, "err"), ("ncnest", 100000, "err"), ("looknest", 100000, "err"), ("lookbehindnest", 250, "ok"),
+    ("groups", 65535, "ok"), ("groups", 65536, "err"), ("loops", 65535, "ok"), ("loops", 65536, "err"),
+    ("quantnest", 250, "ok"), ("quantnest", 100000, "err"), ("count", 30, "ok"), ("countrange", 30, "ok"),
+    ("literal", 1000000, "ok"), ("literalmb", 300000, "ok"), ("classranges", 100000, "ok"), ("classnest", 250, "ok"),
+    ("classnest", 100000, "err"), ("qstrings", 50000, "ok"), ("backrefs", 100000, "ok"), ("named", 70000, "err"),
+    ("dupnamed", 3000, "ok"), ("catnest", 250, "ok"), ("altnest", 250, "ok"), ("altnest", 100000, "err"),
+]
+BIG_THOROUGH = [("alt", 1000000, "ok"), ("literal", 5000000, "ok"), ("classranges", 1000000, "ok"), ("backrefs", 1000000, "ok"), ("qstrings", 300000, "ok")]
+
+
+def c07_big(binary, tier, stats, violations):
+    """Adversarially large patterns, each compiled (and searched once, and dropped) in a worker process
+    with the default 8 MiB main-thread stack and a wall-clock cap: an abort, a signal or a timeout is a violation;
+    the expected verdict (Ok / Err for the resource limits) is checked too."""
+    cases = BIG_CASES + (BIG_THOROUGH if tier == "thorough" else [])
+    for kind, n, want in cases:
+        t = time.time()
+        try:
+            p = subprocess.run([binary, "big", kind, str(n)], stdout=subprocess.PIPE, stderr=subprocess.PIPE, text=True, timeout=120)
+            rc, out = p.returncode, (p.stdout.strip().splitlines() or [""])[-1]
+        except subprocess.TimeoutExpired:
+            rc, out = "timeout", ""
+        stats["evaluations"] = stats.get("evaluations", 0) + 1
+        stats["distinct_nontrivial"] = stats.get("distinct_nontrivial", 0) + 1
+        stats["dist"]["c07big:%s:%d" % (kind, n)] = "%s %s %.1fs" % (rc, out, time.time() - t)
+        verdict = out.split(" ")[0] if out else ""
+        if rc != 0 or verdict not in ("ok", "err"):
+            violations.append({"kind": "panic", "case": "rvharness big %s %d" % (kind, n),
+                               "what": "compiling the adversarial pattern `%s` x %d did not return Ok or Err (exit status %s, output %r)" % (kind, n, rc, out)})
+        elif want is not None and verdict != want:
+            violations.append({"kind": "impl-vs-spec", "case": "rvharness big %s %d" % (kind, n),
+                               "what": "adversarial pattern `%s` x %d: expected %s, got %s (resource limits must surface exactly at the documented bounds)" % (kind, n, want, verdict)})
+    stats["samples"] += ["big %s %d => %s" % (k, n, w) for k, n, w in cases[:6]]
 
 
 def c15_replay(default_binary, tier, seed, stats, violations, broken):
@@ -627,6 +668,8 @@ def check(pid, tier, seed):
 
     if plan.get("custom") == "c15" and okc:
         c15_replay(binary, tier, seed, stats, violations, broken)
+    if plan.get("custom") == "c07" and okc:
+        c07_big(binary, tier, stats, violations)
 
     # classification
     rc = 0
